@@ -4,7 +4,6 @@
 package pj
 
 import (
-	"sync/atomic"
 	"bufio"
 	"crypto/sha256"
 	"encoding/hex"
@@ -15,6 +14,7 @@ import (
 	"sort"
 	"strings"
 	"sync"
+	"sync/atomic"
 	"syscall"
 
 	"github.com/pgavlin/dawn/util"
